@@ -350,7 +350,7 @@ func scenario(f *failer, idx int, sp spec, class string) {
 	iterOrder := rng.IntN(3)
 	seenKey := map[keyN]int{}
 	prevPick := []int{-1, -1}
-	var evals, keyedEvals, exact, shrinkBelowPin, newBatches, manualOOR, sawN2 int
+	var evals, keyedEvals, exact, shrinkBelowPin, newBatches, manualOOR, sawN2, consistencyChecks int
 	var trace []string
 
 	for step, n := range seq {
@@ -400,7 +400,19 @@ func scenario(f *failer, idx int, sp spec, class string) {
 		}
 		pickOnce := func(phase string) (pick int, ok bool) {
 			pn := vh.Catch(func() {
-				tp.RequiresConsistency(rec)
+				rc := tp.RequiresConsistency(rec)
+				// "Records with equal keys go to the same partition", also while partitions are
+				// unavailable: the producer maps a record over the WRITABLE partitions only,
+				// unless the partitioner says the record requires consistency. A key-hashing
+				// partitioner must therefore say so for every record whose key it hashes - every
+				// non-nil key, the empty one included.
+				if sp.keyed && rec.Key != nil && !rc {
+					f.fail(sp.name+": RequiresConsistency is false for a record whose key is hashed",
+						map[string]any{"spec": sp.name, "key": keyStr(rec.Key), "key_len": len(rec.Key), "scenario": idx})
+				}
+				if sp.keyed && rec.Key != nil {
+					consistencyChecks++
+				}
 				if bp, isBackup := tp.(kgo.TopicBackupPartitioner); isBackup {
 					it := &backupIter{order: make([]int, n), backups: backups}
 					for i := range it.order {
@@ -504,6 +516,7 @@ func scenario(f *failer, idx int, sp spec, class string) {
 	}
 	r.Eval(evals)
 	r.Count("picks_keyed", keyedEvals)
+	r.Count("requires_consistency_checked_for_keyed_records", consistencyChecks)
 	if sp.exact != "" {
 		r.Count(sp.exact, exact)
 	}
